@@ -103,6 +103,9 @@ func solve(dir, name, script string, timeoutS int) SolveResult {
 			if first == "unsat" || first == "sat" {
 				st = first
 			}
+			if strings.HasPrefix(first, "(error") && !strings.Contains(first, "model is not available") {
+				st = "error" // malformed script: an engine defect, never a verdict
+			}
 			ch <- SolveResult{Status: st, Backend: s[0], Ms: time.Since(t0).Milliseconds(), Model: out.String()}
 		}(s)
 	}
@@ -113,7 +116,9 @@ func solve(dir, name, script string, timeoutS int) SolveResult {
 			cancel()
 			return res
 		}
-		best = res
+		if best.Status != "error" {
+			best = res
+		}
 	}
 	return best
 }
